@@ -241,6 +241,11 @@ def i_or(I, args, ins):
     return core.b_or(args[0], args[1])
 
 
+def i_hex(I, args, ins):
+    from .stubs.base import hex_of_bytes
+    return hex_of_bytes(I, I.slice_elems(args[0]))
+
+
 def i_note(I, args, ins):
     I.ctx.event('note', _label(args[0]), args[1])
     return None
@@ -252,7 +257,7 @@ INTRINSICS = {
     'verifNondetByte': i_nondet_byte, 'verifNondetString': i_nondet_string, 'verifNondetBytes': i_nondet_bytes,
     'verifNondetTime': i_nondet_time, 'verifNondetTimeMs': i_nondet_time_ms,
     'verifNondetDuration': i_nondet_duration, 'verifChoose': i_choose, 'verifHavoc': i_havoc, 'verifNote': i_note,
-    'verifNondetURL': i_nondet_url, 'verifAnd': i_and, 'verifOr': i_or,
+    'verifHex': i_hex, 'verifNondetURL': i_nondet_url, 'verifAnd': i_and, 'verifOr': i_or,
 }
 
 
